@@ -983,7 +983,7 @@ func (e *Engine) Verify(fn *ssa.Function, c *Contract) *FuncResult {
 		}
 		for name := range c.AtAsserts {
 			ok := false
-			if p := fn.Parent(); p != nil && strings.HasPrefix(name, p.Name()+".") {
+			if p := fn.Parent(); (p != nil && strings.HasPrefix(name, p.Name()+".")) || strings.HasPrefix(name, fn.Name()+".") {
 				// a sibling closure (or this one), called through the variable it is bound to: not a
 				// static callee; the check after the run (an obligation was produced) covers it
 				ok = true
